@@ -146,7 +146,7 @@ def get_path(d, path):
 
 
 STATE_KEYS = ("tag", "text", "slot", "attrs", "class", "style", "id", "slotAttr", "dataset", "marks", "events", "changeProps",
-              "worklets", "extra", "generics", "values", "modelPaths")
+              "worklets", "extra", "generics", "values", "modelPaths", "comp", "props", "pending", "extClasses")
 
 
 def project_state(tree):
